@@ -4,28 +4,28 @@ import json, subprocess
 
 CHECKS = {
  # id: (level, technique, level text, level note, design ref)
- "C01": ("exploration", "PBT over generated thread programs with shaped schedules (rendezvous inside the harness loader, spin barriers), invariants over the joined history (pointer identity, ticket-ordered presence, drop ledger)",
+ "C01": ("exploration", "PBT over generated thread programs with shaped schedules (rendezvous inside the harness loader, spin barriers), invariants over the joined history (pointer identity, ticket-ordered presence, drop ledger); ThreadSanitizer pass over the same generated programs (thorough)",
          "2..8 threads run generated programs on overlapping keys through AssetCache and its AnyCache view; loaders that passed the miss wait for each other so simultaneous misses are forced; growth by up to 300000 unrelated insertions; shard counts 4/8/16/64; thorough repeats under parking_lot and std hashing. Invariants: one pointer and one value per key, presence never flips back, exactly the winner alive in the ledger, retained handles still valid after growth.",
          "schedules are shaped and sampled, not enumerated; pointer validity after growth is observed through reads under a poisoning allocator", "4/C01"),
- "C02": ("exploration", "model-based stateful PBT: BTreeMap reference model, bounded-exhaustive op sequences + random sequences, six front-ends differentially",
+ "C02": ("exploration", "model-based stateful PBT: BTreeMap reference model, bounded-exhaustive op sequences + random sequences, seven front-ends differentially; coverage-guided fuzz target c02 (thorough)",
          "Every op sequence up to length 2 (quick) / 3 (thorough) over a 58-op alphabet is enumerated and random sequences up to length 30/60 are generated; each runs on six front-ends and every return value plus a final full scan is compared with a map model written from the statement.",
          "trusts the reference model (about 100 lines); single-threaded histories only (C01 covers races)", "4/C02"),
- "C03": ("exploration", "PBT with an oracle computed from the statement (extension order, error-class precedence, default_value, caching) over generated file states and edit/load histories",
+ "C03": ("exploration", "PBT with an oracle computed from the statement (extension order, error-class precedence, default_value, caching) over generated file states and edit/load histories; coverage-guided fuzz target c03 (thorough)",
          "Random per-extension file states (present via each FileContent variant / absent / unreadable with an io kind), extension lists of length 0..3, compound chains of depth 0..4, default_value modes and break/repair histories; expected result, error class, error id chain and default_value argument are computed from the statement and compared.",
          "the loader is a harness loader; the in-memory source delivers the three FileContent variants", "4/C03"),
- "C17": ("exploration", "PBT over initialiser scripts x threads x seed kinds with invariants (mutual exclusion, single success, seed continuity, drop ledger) and the blocked-state detector for get()",
+ "C17": ("exploration", "PBT over initialiser scripts x threads x seed kinds with invariants (mutual exclusion, single success, seed continuity, drop ledger) and the blocked-state detector for get(); ThreadSanitizer pass (thorough)",
          "Generated scripts of failing / panicking / succeeding initialisers on 1..8 threads with spin rendezvous; invariants are checked on the joined history and a drop ledger; a blocking get() is caught as a deadlock of the case.",
          "thread interleavings are sampled; liveness of get() is a bounded-safety reading (no all-blocked state in the explored executions)", "4/C17"),
  "C04": ("exploration", "differential PBT: one generated tree materialised as directory, zip, tar and embedded table, each compared with the tree itself (reference model); concurrent readers; fuzz target c04 (archives vs model)",
          "Random trees (unicode, spaces, long paths, shared ids, empty directories, empty tree) and archive layouts (member order, implicit directories, './' prefix, stored/deflated, in-memory/file-backed); read, read_dir, exists and the absence of everything else are checked against the generated tree on every source, from 1..4 threads at once. The Embedded source is produced by the embed! macro's own expansion function run on the directory.",
          "names follow the crate's documented rule (no '.', UTF-8); symbolic links are outside the documented domain; the macro's compile-time path is additionally exercised on fixed trees", "4/C04"),
- "C05": ("exploration", "stateful PBT over generated dependency DAGs (recipes stored in the source) and edit/notification histories; oracle = pure model interpreter (local consistency with the current source and cache) + reload-order invariant; sentinel quiescence barrier",
+ "C05": ("exploration", "stateful PBT over generated dependency DAGs (recipes stored in the source) and edit/notification histories; oracle = pure model interpreter (local consistency with the current source and cache) + reload-order invariant; sentinel quiescence barrier; bounded-exhaustive enumeration of all load DAGs on <= 3 (quick) / 4 (thorough) nodes",
          "Generated worlds of up to 9 compound nodes over leaves, directories and raw files with rewiring, breaking, repairing, creating and deleting edits, batched / shuffled / duplicated / noisy notifications, in hot_reload() and enhance_hot_reloading modes. After a barrier every cached asset connected to a notified entry must equal a model evaluation of its recipe; failing reloads keep the old value; no dependent is reloaded before a dependency within a pass.",
          "trusts the model interpreter of the recipe language and the shadow recorder (harness code); cyclic look-ups and not-tracked-by-design situations are excluded by construction and counted", "4/C05"),
  "C06": ("exploration", "stateful PBT on the same worlds with un-notified edits and noise; invariants over the observed loader/source log vs the shadow dependency graph; reload-id / watcher accounting after every pass",
          "For every step: the reloader re-loads only assets connected (per the observed dependency graph, including failed attempts) to a notified entry, at most once per pass, never reads the source otherwise; reload ids change exactly once per successful rewrite; watchers and reloaded_global answer true exactly once per batch of rewrites; unaffected values are bit-identical.",
          "the shadow graph is derived from observed reads and look-ups with the attribution rules of C14; passes are delimited by hot_reload calls (exact counts only in that mode)", "4/C06"),
- "C07": ("exploration", "concurrent PBT with self-checking multi-word values: generated reader styles x reload streams; invariants checked inside the racing threads (torn reads, guard pinning, id pinning, in-flight bracket, watcher freshness)",
+ "C07": ("exploration", "concurrent PBT with self-checking multi-word values: generated reader styles x reload streams; invariants checked inside the racing threads (torn reads, guard pinning, id pinning, in-flight bracket, watcher freshness); ThreadSanitizer pass (thorough)",
          "1..7 reader threads (short, long-held, mapped, try_map, copied, polling watcher, bracket sampler) race a writer that streams 30..2000 reloads of 64 B .. 64 KiB self-checking values; thorough repeats under parking_lot.",
          "schedules are sampled by the OS scheduler; readers respect the documented preconditions", "4/C07"),
  "C08": ("exploration", "concurrent PBT in supervised worker processes: generated callers x loaders x event bursts x cyclic look-up graphs; oracle = completion under a /proc blocked-state detector (all threads asleep + zero CPU = deadlock), worker exit status, and an in-flight bracket on reloader activity",
@@ -43,7 +43,7 @@ CHECKS = {
  "C12": ("exploration", "PBT + bounded-exhaustive enumeration of (entry x notification kind) fed to the crate's real notify handler through hooks, compared with a lexical reference of path_of's inverse; round-trip checks; real inotify histories with a sentinel barrier",
          "Synthetic notifications of every kind for every entry of generated (and one fixed, exhaustively enumerated) trees under one or two roots, with '.'/'..' spellings, vanished objects, outside / dotted / non UTF-8 paths; the events sent must be exactly the entry (+ parent directory for create/rename/remove). Real write/delete/rename/mkdir histories on a watched temp dir must leave every directory handle equal to the disk.",
          "uses hooks id_of_path / event_handler / event_channel; the real part depends on inotify (self-test, skipped and counted otherwise) and uses polling with generous bounds", "4/C12"),
- "C13": ("exploration", "stateful PBT with a drop ledger and a checking global allocator over four value layouts; shaped races (insertion rendezvous, guard across reload); exhaustive wrong-type views per cached handle",
+ "C13": ("exploration", "stateful PBT with a drop ledger and a checking global allocator over four value layouts; shaped races (insertion rendezvous, guard across reload); exhaustive wrong-type views per cached handle; ThreadSanitizer pass (thorough)",
          "Histories of load / load_owned / get_or_insert / remove / take / clear / reload / failing reload / guarded reload / racing loads; after every step the live tracked values must be exactly those reachable through the cache or owned by the caller.",
          "ledger and allocator wrapper are harness code; races are shaped and sampled", "4/C13"),
  "C14": ("exploration", "PBT over nested recipes with per-entry enumeration inside each case: exact set equality between handles whose reload id grew and the shadow-graph closure; recording-token hook",
@@ -52,10 +52,10 @@ CHECKS = {
  "C15": ("exploration", "PBT over create/use/drop sequences with a /proc/self/task oracle (per-thread CPU ticks, thread names and counts)",
          "Generated sequences over 1..3 caches on in-memory and real filesystem sources with four drop timings, sources dropping their EventSender, and post-drop filesystem activity; idle reloaders must accrue <= 2 ticks in 400 ms, reloaders of dropped caches must be gone or not running, filesystem watcher threads must return to the baseline.",
          "CPU-tick thresholds with wide margins (idle 0-1 vs spinning ~40 per 400 ms); inotify availability is probed", "4/C15"),
- "C16": ("exploration", "model-based stateful PBT (Vec<u8>/String reference model) + checking global allocator; fuzz target c16",
+ "C16": ("exploration", "model-based stateful PBT (Vec<u8>/String reference model) + checking global allocator; coverage-guided fuzz target c16 under ASan and a ThreadSanitizer pass (thorough)",
          "Random op sequences over a pool of SharedBytes/SharedString handles are compared step by step with a Vec<u8>/String model, while a checking allocator verifies every free (layout, double free, poison, live blocks). Racing final drops behind a spin rendezvous sample the refcount race. Exploration, not proof: byte inputs and schedules are sampled.",
          "trusts the harness model and allocator wrapper; thread interleavings are OS-scheduled (sampled)", "4/C16"),
- "C18": ("exploration", "bounded-exhaustive enumeration + random op sequences against a max() model; concurrent race rounds with accounting oracle",
+ "C18": ("exploration", "bounded-exhaustive enumeration + random op sequences against a max() model; concurrent race rounds with accounting oracle; coverage-guided fuzz target c18 (thorough)",
          "Every initial id x every op sequence up to length 2 (quick) / 3 (thorough) over a 6-id sub-pool is enumerated against the max model; random sequences over 48 real ids; concurrent offers and spin-rendezvous race rounds are checked by accounting (final = max, each growth told once).",
          "ReloadIds come from real reloads of an in-memory source; interleavings are sampled", "4/C18"),
 }
